@@ -4,7 +4,7 @@ Import ListNotations.
 From PV Require Import Fort.Syntax Fort.Sem Fort.Facts C01.Model C01.SelectProofs C01.WhereLocal
   C01.WhereExec C01.Refuted C01.Corr    (* Corr: the executable correspondence check, no theorem *)
   C01.Compose C01.Compose2 C01.Compose3.
-From PV Require C01.Stride.          (* not imported: C01.Model2 re-uses the names of C01.Model *)
+From PV Require C01.Stride C01.Corr3. (* not imported: Model2 / Model3 re-use the names of C01.Model; Corr3 = correspondence check *)
 Open Scope Z_scope.
 
 (* SELECT CASE -> IF chain: for ALL selector expressions, clause lists (value lists, ranges, open
